@@ -453,6 +453,19 @@ def expect_geom(case, o, cfg):
             if not same_ring(o[k], ev, 1e-4):
                 out.append((k, o[k], ev))
         want_num(out, "confidence setter", o["conf_box"][5], 0.5)
+    elif kind == "boxobj":
+        want(out, "steps", len(o["steps"]), len(case["ops"]))
+        if o["steps"]:
+            last = o["steps"][-1]
+            ev = [(v[0] / 4.0, v[1] / 4.0) for v in case["verts"]]
+            Cnt.fields += 1
+            got = [tuple(p) for p in last["vertices"]]
+            if not (all(any(abs(g[0] - e[0]) < 1e-3 and abs(g[1] - e[1]) < 1e-3 for g in got) for e in ev)
+                    and all(any(abs(g[0] - e[0]) < 1e-3 and abs(g[1] - e[1]) < 1e-3 for e in ev) for g in got)):
+                out.append(("boxobj.vertices", last["vertices"], ev))
+            want_num(out, "boxobj.area", last["area"], case["area16"] / 16.0, rel=1e-5)
+        for k in ("area_up", "area_pu"):
+            want_num(out, "boxobj.intersection_area", o[k], case["inter16"] / 16.0, rel=1e-5, ab=2e-3)
     return out
 
 
@@ -590,6 +603,9 @@ def nontrivial(area, case):
     if area == "nms":
         return case.get("nt") == 1
     if area == "geom":
+        if case["kind"] == "boxobj":
+            ops = case["ops"]
+            return "gen" in ops and any(o in ("turn", "move", "resize") for o in ops[ops.index("gen") + 1:])
         return {"pair": case.get("inter16", 0) > 0, "conv": True, "poly": case.get("box", {}).get("k", 0) != 0}.get(case["kind"], False)
     if area == "kalman":
         if case["kind"] == "gate":
@@ -824,6 +840,7 @@ def plan(quick, dflt):
                                                                              "Grid": "full", "Ties": False}, simulate={"num": 6 * n, "depth": 260})),
          ("pairs", lambda q: gen_plain(q, "pairs", S / "geom" / "GenL.tla", cfgfile=S / "geom" / f"GenL_pair_{t}.cfg", workers=8)),
          ("boxes", lambda q: gen_plain(q, "boxes", S / "geom" / "GenE.tla", cfgfile=S / "geom" / f"GenE_{t}.cfg")),
+         ("boxobj", lambda q: gen_plain(q, "boxobj", S / "geom" / "GenObj.tla", {"D": 3 if quick else 4})),
          ("gate", lambda q: gen_plain(q, "gate", S / "kalman" / "GenGate.tla", cfgfile=S / "kalman" / "GenGate.cfg"))]
     for m, k in ([(2, 4)] if quick else [(2, 5), (3, 4)]):
         P.append((f"proto-{m}-{k}", lambda q, m=m, k=k: gen_plain(q, f"proto-{m}-{k}", S / "kalman" / "GenKP.tla", {"M": m, "D": k})))
@@ -929,6 +946,7 @@ def run(chk):
     compare(ctx, chk, "nms", "nms", [], [gens["nms"].out, gens["nms-sim"].out])
     compare(ctx, chk, "pairs", "geom", [], [gens["pairs"].out])
     compare(ctx, chk, "boxes", "geom", [], [gens["boxes"].out])
+    compare(ctx, chk, "boxobj", "geom", [], [gens["boxobj"].out])
     kal = [gens[k].out for k, _ in P if k == "gate" or k.startswith("proto-") or k == "exact"]
     compare(ctx, chk, "kalman", "kalman", [], kal, py_extra=["--kalman-default", f"{kd['position_weight']},{kd['velocity_weight']}"])
     # ---- the comparison itself is live
